@@ -247,6 +247,26 @@ def rule_Q2(ctx):
                 if not ev_.ev(c.func.value).key().endswith(".tracks") or ev_.ev(c.args[0]).key() != f"sub({tk},0)":
                     okf, detf = False, f"`{norm(c)}` does not append the parsed track to the file's track list"
         okf = okf and n_tr >= 1
+        # the list of tracks ends only when no non-empty line is left: the test that leaves the loop looks at the text
+        # get_nonempty_entry returned (it skips blank lines and returns '' only when the lines are used up)
+        oke, dete, n_exit = True, "", 0
+        for kind, path, edge in fcfg.iteration_paths(flp):
+            if kind != "exit" or len(path) == 1:
+                continue
+            if any(fcfg.nodes[x].kind == "raise" for x, _ in path):
+                continue
+            pr = _walk(ctx, fp, fcfg, path)
+            last = pr.conds[-1][0].replace("~", "") if pr.conds else ""
+            core = last
+            while core.startswith("not(") and core.endswith(")"):
+                core = core[4:-1]
+            if re.fullmatch(r"(truthy\(len\(\w+\)\)|truthy\(\w+\)|len\(\w+\) (<=|>|==|!=) 0|-1 \+ len\(\w+\) (>=|<) 0)", core):
+                continue  # the guard in another place: no line of any kind is left
+            n_exit += 1
+            if not core.startswith(("len(sub(get_nonempty_entry(", "truthy(sub(get_nonempty_entry(", "truthy(len(sub(get_nonempty_entry(", "-1 + len(sub(get_nonempty_entry(")):
+                oke, dete = False, f"the track list ends on `{last[:100]}`: a blank line is taken for the end of the sheet (only get_nonempty_entry skips blank lines)"
+        ctx.ob("Q2", fl[0], "the track list of a FILE ends only when no non-empty line is left", oke and n_exit >= 1, dete or ("" if n_exit else "no end-of-lines exit found"),
+               inst="file-tracks-end")
     elif okf:
         okf, detf = False, "track loop not found"
     ctx.ob("Q2", fp, "FILE: bin name from the quoted group; tracks appended in order", okf, detf, inst="file-adapter")
